@@ -58,7 +58,15 @@ def main():
     os.makedirs(evd)
     summary = {"dir": d}
     try:
-        subprocess.run(["git", "-C", REPO, "worktree", "add", "--detach", "-q", wt, "HEAD"], check=True, capture_output=True)
+        for attempt in range(6):
+            # concurrent `git worktree add` calls contend for a lock in /repo/.git: retry
+            r0 = subprocess.run(["git", "-C", REPO, "worktree", "add", "--detach", "-q", wt, "HEAD"], capture_output=True, text=True)
+            if r0.returncode == 0:
+                break
+            import time as _t
+            _t.sleep(1.5 * (attempt + 1))
+        else:
+            raise RuntimeError("git worktree add failed: " + r0.stderr[-300:])
         patch = os.path.join(d, "patch.diff")
         demo = os.path.join(d, "demo.diff")
         r = sh(["git", "apply", patch], wt)
